@@ -32,6 +32,7 @@ func runC04(r *Report, p *Program) {
 	c04R3(h)
 	c04R4(h)
 	c04R5(h)
+	c04R6(h)
 }
 
 // stringTable reads a package-level []string composite literal (constants resolved by go/types).
